@@ -506,7 +506,12 @@ class URL:
             except UnicodeEncodeError:
                 self.host = ud['host']  # already non-ascii text
             else:
-                self.host = self.host.decode("idna")
+                try:
+                    self.host = self.host.decode("idna")
+                except UnicodeError as ue:
+                    # e.g., a malformed punycode ("xn--") label
+                    raise URLParseError('invalid host: %r (%r)'
+                                        % (ud['host'], ue))
 
         self.port = ud['port']
         self.path_parts = tuple([unquote(p) if '%' in p else p for p
@@ -872,16 +877,20 @@ def parse_host(host):
         host = host[1:-1]
         try:
             inet_pton(socket.AF_INET6, host)
-        except OSError as se:
-            raise URLParseError(f'invalid IPv6 host: {host!r} ({se!r})')
-        except UnicodeEncodeError:
-            pass  # TODO: this can't be a real host right?
+        except (OSError, ValueError) as se:
+            # NB: embedded NULs give a bare ValueError (UnicodeEncodeError
+            # is a ValueError too, and neither can be a real host)
+            if isinstance(se, UnicodeEncodeError):
+                pass  # TODO: this can't be a real host right?
+            else:
+                raise URLParseError(f'invalid IPv6 host: {host!r} ({se!r})')
         else:
             family = socket.AF_INET6
             return family, host
     try:
         inet_pton(socket.AF_INET, host)
-    except (OSError, UnicodeEncodeError):
+    except (OSError, ValueError):
+        # (ValueError covers UnicodeEncodeError and embedded NULs)
         family = None  # not an IP
     else:
         family = socket.AF_INET
